@@ -66,13 +66,13 @@ Lemma strip_loop_spec : forall fuel n fb i fb' i', 0 <= i -> 0 <= fb ->
   i <= i' /\ fb' = fb - (i' - i) /\ 0 <= fb' /\ (forall j, i <= j < i' -> Z.testbit n j = false).
 Proof.
   induction fuel as [|fuel IH]; intros n fb i fb' i' Hi Hfb H; cbn [strip_loop] in H.
-  - inversion H; subst. repeat split; try lia. intros j Hj. lia.
+  - inversion H; subst. repeat split; lia.
   - destruct ((0 <? fb) && (i <=? fb) && negb (Z.testbit n i)) eqn:E.
     + apply andb_prop in E. destruct E as [E E3]. apply andb_prop in E. destruct E as [E1 E2].
       apply Z.ltb_lt in E1. apply negb_true_iff in E3.
       destruct (IH n (fb - 1) (i + 1) fb' i' ltac:(lia) ltac:(lia) H) as (A & B & C & D).
       repeat split; try lia. intros j Hj. destruct (Z.eq_dec j i) as [->|Hne]; [exact E3|apply D; lia].
-    + inversion H; subst. repeat split; try lia. intros j Hj. lia.
+    + inversion H; subst. repeat split; lia.
 Qed.
 
 (** ** normalize *)
@@ -94,9 +94,9 @@ Proof.
       split; [apply Z.div_pos; [pose proof (pow2_gt0 (fb - mb - 1)); lia|apply pow2_gt0; lia]|].
       split; [lia|]. reflexivity.
     - destruct (Z.leb_spec fb mb); [|lia]. split; [lia|]. split; [lia|reflexivity]. }
-  destruct r as [n1 fb1]. cbn [fst snd] in Hr. destruct Hr as (Hn1 & Hfb1 & Hv).
+  clearbody r. destruct r as [n1 fb1]. cbn [fst snd] in Hr. destruct Hr as (Hn1 & Hfb1 & Hv).
   destruct (strip_loop (Z.to_nat fb1 + 1) n1 fb1 0) as [fb2 i] eqn:ES.
-  destruct (strip_loop_spec _ _ _ _ _ _ ltac:(lia) ltac:(lia) ES) as (Hi & Efb2 & Hfb2 & Hz).
+  destruct (strip_loop_spec _ n1 fb1 0 fb2 i (Z.le_refl 0) (proj1 Hfb1) ES) as (Hi & Efb2 & Hfb2 & Hz).
   cbn [f_n f_fb]. unfold sval. cbn [f_n f_fb].
   assert (En1 : n1 = Z.shiftr n1 i * 2 ^ i) by (apply low_bits_zero; [lia|intros j Hj; apply Hz; lia]).
   assert (Hsh : 0 <= Z.shiftr n1 i) by (apply Z.shiftr_nonneg; exact Hn1).
@@ -135,11 +135,11 @@ Qed.
 Lemma eq1_val x : wf x -> f_eq1 x = true -> sval x = 2 ^ mb.
 Proof.
   intros [Hn Hfb] H. unfold f_eq1 in H. apply andb_prop in H. destruct H as [H1 H2].
-  apply Z.eqb_eq in H1. apply Z.eqb_eq in H2. unfold bitlen in H2. destruct (Z.leb_spec (f_n x) 0); [lia|].
+  apply Z.eqb_eq in H1. apply Z.eqb_eq in H2. unfold bitlen in H2. destruct (Z.leb_spec (f_n x) 0) as [Hle|Hgt]; [lia|].
   assert (Hl : Z.log2 (f_n x) = 0) by lia.
-  assert (f_n x = 1).
+  assert (Hone : f_n x = 1).
   { pose proof (Z.log2_spec (f_n x) Hn) as S. rewrite Hl in S. cbn in S. lia. }
-  unfold sval. rewrite H, H1. rewrite Z.sub_0_r. lia.
+  unfold sval. rewrite Hone, H1. rewrite Z.sub_0_r. lia.
 Qed.
 
 Lemma sqr_val x : wf x -> 2 ^ mb <= sval x ->
@@ -153,8 +153,10 @@ Proof.
     destruct (Z.leb_spec (2 * fb) mb) as [Hle|Hgt].
     - (* exact: the square already fits *)
       assert (E : n * 2 ^ (mb - fb) * (n * 2 ^ (mb - fb)) = n * n * 2 ^ (mb - 2 * fb) * 2 ^ mb).
-      { replace (n * 2 ^ (mb - fb) * (n * 2 ^ (mb - fb))) with (n * n * (2 ^ (mb - fb) * 2 ^ (mb - fb))) by ring.
-        rewrite <- Z.pow_add_r by lia. rewrite <- Z.mul_assoc, <- Z.pow_add_r by lia. do 2 f_equal. lia. }
+      { assert (HA : 2 ^ (mb - fb) * 2 ^ (mb - fb) = 2 ^ (mb - 2 * fb) * 2 ^ mb)
+          by (rewrite <- !Z.pow_add_r by lia; f_equal; lia).
+        replace (n * 2 ^ (mb - fb) * (n * 2 ^ (mb - fb))) with (n * n * (2 ^ (mb - fb) * 2 ^ (mb - fb))) by ring.
+        rewrite HA. ring. }
       rewrite E. assert (Hh : 0 < 2 ^ (mb - 1) < 2 ^ mb).
       { split; [apply pow2_gt0; lia|apply Z.pow_lt_mono_r; lia]. }
       apply Z.div_unique with (r := 2 ^ (mb - 1)); lia.
@@ -162,9 +164,12 @@ Proof.
       assert (Hs : 0 < 2 ^ (2 * mb - 2 * fb)) by (apply pow2_gt0; lia).
       assert (E1 : n * 2 ^ (mb - fb) * (n * 2 ^ (mb - fb)) + 2 ^ (mb - 1)
                    = (n * n + 2 ^ (2 * fb - mb - 1)) * 2 ^ (2 * mb - 2 * fb)).
-      { replace (n * 2 ^ (mb - fb) * (n * 2 ^ (mb - fb))) with (n * n * (2 ^ (mb - fb) * 2 ^ (mb - fb))) by ring.
-        rewrite <- Z.pow_add_r by lia. rewrite Z.mul_add_distr_r. rewrite <- (Z.pow_add_r 2 (2 * fb - mb - 1)) by lia.
-        f_equal; [f_equal; f_equal; lia|f_equal; lia]. }
+      { assert (HA : 2 ^ (mb - fb) * 2 ^ (mb - fb) = 2 ^ (2 * mb - 2 * fb))
+          by (rewrite <- Z.pow_add_r by lia; f_equal; lia).
+        assert (HB : 2 ^ (mb - 1) = 2 ^ (2 * fb - mb - 1) * 2 ^ (2 * mb - 2 * fb))
+          by (rewrite <- Z.pow_add_r by lia; f_equal; lia).
+        replace (n * 2 ^ (mb - fb) * (n * 2 ^ (mb - fb))) with (n * n * (2 ^ (mb - fb) * 2 ^ (mb - fb))) by ring.
+        rewrite HA, HB. ring. }
       assert (E2 : 2 ^ mb = 2 ^ (2 * fb - mb) * 2 ^ (2 * mb - 2 * fb)) by (rewrite <- Z.pow_add_r by lia; f_equal; lia).
       rewrite E1, E2. rewrite Z.div_mul_cancel_r; [reflexivity|pose proof (pow2_gt0 (2 * fb - mb)); lia|lia]. }
   destruct (normalize_spec (f_n x * f_n x) (2 * f_fb x) Hnn ltac:(lia)) as (A & B & C).
@@ -229,10 +234,10 @@ Proof.
     { unfold step_y. apply Z.div_le_lower_bound; [apply pow2_gt0; lia|].
       assert (0 < 2 ^ (mb - 1)) by (apply pow2_gt0; lia). assert (0 < 2 ^ mb) by (apply pow2_gt0; lia). nia. }
     assert (Hone : sval x = 2 ^ mb -> step_y mb (sval x) = 2 ^ mb).
-    { intros Ev. rewrite Ev. pose proof (step_at_one mb Hmb) as S. rewrite blog_step_spec in S by exact Hmb.
-      destruct (2 ^ (mb + 1) <=? step_y mb (2 ^ mb)); inversion S. reflexivity. }
+    { intros Ev. rewrite Ev. apply step_y_at_one. exact Hmb. }
     assert (Hgt : sval x <> 2 ^ mb -> 2 ^ mb < step_y mb (sval x)).
-    { intros Hne. unfold step_y. apply Z.div_le_lower_bound; [apply pow2_gt0; lia|].
+    { intros Hne. assert (Hs : 2 ^ mb + 1 <= step_y mb (sval x)); [|lia].
+      unfold step_y. apply Z.div_le_lower_bound; [apply pow2_gt0; lia|].
       assert (0 < 2 ^ (mb - 1)) by (apply pow2_gt0; lia). assert (0 < 2 ^ mb) by (apply pow2_gt0; lia). nia. }
     destruct (Z.leb_spec (2 ^ (mb + 1)) (step_y mb (sval x))) as [Hb|Hb]; cbn [fst snd Z.b2z].
     + (* bit 1: div2 *)
